@@ -22,6 +22,7 @@ import pymbolic.primitives as p
 
 from .. import c17_classes as K
 from .. import c17_inject as J
+from .. import c17_sharing as S
 from ..core import Failure, Prop, Stream, VERIF
 from ..gen import ExprGen, node_types
 from ..sexp import A, Atom, dumps, expr_to_sx, loads, sx_shrinks, sx_to_expr
@@ -84,7 +85,7 @@ class Batch:
         self.reset()
 
     def reset(self):
-        self.hist, self.digest, self.compiled = [], [], []
+        self.hist, self.digest, self.compiled, self.sharing = [], [], [], []
         self.result = None
         self.launches = 0
         self.tier = "quick"
@@ -102,22 +103,28 @@ class Batch:
         self.hist = list(gen_histories(r1, tier))
         self.digest = list(gen_digest_cases(r2, tier))
         self.compiled = list(gen_compiled_cases(r3, tier))
+        # drawn after the three above: the cases of the older streams are what they were
+        r4, r5 = (random.Random(rng.random()) for _ in range(2))
+        self.compiled += list(gen_compiled_name_cases(r4, tier))
+        self.sharing = list(gen_sharing_cases(r5, tier))
 
-    def job(self, hist, digest, compiled):
+    def job(self, hist, digest, compiled, sharing=()):
         dg = []
         for d in digest:
             dg += [d["expr"], d["variant"]]
-        return {"histories": hist, "digests": dg, "compiled": compiled}
+        return {"histories": hist, "digests": dg, "compiled": compiled, "sharing": list(sharing)}
 
     def run(self):
         if self.result is None:
             prods, conss = self.configs()
-            self.result = run_batch(self.job(self.hist, self.digest, self.compiled), prods, conss)
+            self.result = run_batch(self.job(self.hist, self.digest, self.compiled, self.sharing),
+                                    prods, conss)
             self.launches = len(prods) + len(conss)
             self.index = {
                 "hist": {json.dumps(h, sort_keys=True): i for i, h in enumerate(self.hist)},
                 "digest": {json.dumps(h, sort_keys=True): i for i, h in enumerate(self.digest)},
                 "compiled": {json.dumps(h, sort_keys=True): i for i, h in enumerate(self.compiled)},
+                "sharing": {json.dumps(h, sort_keys=True): i for i, h in enumerate(self.sharing)},
             }
         return self.result
 
@@ -129,9 +136,15 @@ class Batch:
         if i is not None:
             return res, i
         prods, conss = self.configs()
-        one = {"hist": [], "digest": [], "compiled": []}
+        one = {"hist": [], "digest": [], "compiled": [], "sharing": []}
         one[kind] = [pl]
-        r = run_batch(self.job(one["hist"], one["digest"], one["compiled"]), prods[:1], conss[:2])
+        if kind == "compiled" and pl.get("family"):
+            # the order of tied names depends on the hash seeds of BOTH processes: all of them
+            prods, conss = prods[:2], conss[:3]
+        else:
+            prods, conss = prods[:1], conss[:2]
+        r = run_batch(self.job(one["hist"], one["digest"], one["compiled"], one["sharing"]),
+                      prods, conss)
         return r, 0
 
 
@@ -328,27 +341,28 @@ def gen_digest_cases(rng, tier):
 COMPILE_VARS = ["x", "y", "z", "i"]
 
 
-def gen_arith(rng, depth):
+def gen_arith(rng, depth, names=COMPILE_VARS):
     if depth <= 0 or rng.random() < 0.2:
-        return p.Variable(rng.choice(COMPILE_VARS)) if rng.random() < 0.6 else rng.randint(-4, 5)
+        return p.Variable(rng.choice(names)) if rng.random() < 0.6 else rng.randint(-4, 5)
     k = rng.choice(["sum", "sum", "prod", "prod", "quot", "pow", "if", "floordiv", "rem", "minmax"])
     d = depth - 1
+    ga = lambda: gen_arith(rng, d, names)  # noqa: E731
     if k == "sum":
-        return p.Sum(tuple(gen_arith(rng, d) for _ in range(rng.randint(2, 3))))
+        return p.Sum(tuple(ga() for _ in range(rng.randint(2, 3))))
     if k == "prod":
-        return p.Product(tuple(gen_arith(rng, d) for _ in range(rng.randint(2, 3))))
+        return p.Product(tuple(ga() for _ in range(rng.randint(2, 3))))
     if k == "quot":
-        return p.Quotient(gen_arith(rng, d), gen_arith(rng, d))
+        return p.Quotient(ga(), ga())
     if k == "floordiv":
-        return p.FloorDiv(gen_arith(rng, d), gen_arith(rng, d))
+        return p.FloorDiv(ga(), ga())
     if k == "rem":
-        return p.Remainder(gen_arith(rng, d), gen_arith(rng, d))
+        return p.Remainder(ga(), ga())
     if k == "pow":
-        return p.Power(gen_arith(rng, d), rng.randint(0, 3))
+        return p.Power(ga(), rng.randint(0, 3))
     if k == "minmax":
-        return rng.choice([p.Min, p.Max])((gen_arith(rng, d), gen_arith(rng, d)))
-    return p.If(p.Comparison(gen_arith(rng, d), rng.choice(["<", "<=", "==", "!=", ">", ">="]),
-                             gen_arith(rng, d)), gen_arith(rng, d), gen_arith(rng, d))
+        return rng.choice([p.Min, p.Max])((ga(), ga()))
+    return p.If(p.Comparison(ga(), rng.choice(["<", "<=", "==", "!=", ">", ">="]),
+                             ga()), ga(), ga())
 
 
 def gen_compiled_cases(rng, tier):
@@ -363,6 +377,88 @@ def gen_compiled_cases(rng, tier):
         args.append([[0, 1]] * len(COMPILE_VARS))
         yield {"expr": dumps(expr_to_sx(e)), "vars": vs, "args": args,
                "proto": rng.randrange(0, 6), "prehash": bool(i % 2)}
+
+
+# names that plain string order tells apart but a "friendlier" sort key does not (or orders
+# differently): letter case, digit runs, underscores, length, non-ASCII letters with case.  Where a
+# sort key ties, the order falls back on the iteration order of a set of variables, i.e. on the
+# string-hash seed of the process - the thing a pickle must not depend on.
+NAME_FAMILIES = {
+    "case": lambda r: [c for b in r.sample("xnatbkq", r.randint(1, 3)) for c in (b, b.upper())],
+    "case-words": lambda r: [w for b in r.sample(["ab", "xy", "na", "tk"], r.randint(1, 2))
+                             for w in r.sample([b, b.upper(), b.capitalize(), b[0] + b[1].upper()],
+                                               r.randint(2, 4))],
+    "digits": lambda r: r.sample(["x1", "x2", "x10", "x02", "X1", "x", "x1_"], r.randint(2, 5)),
+    "underscore": lambda r: r.sample(["_x", "x_", "x", "__x", "X_", "_X", "x__"], r.randint(2, 5)),
+    "length": lambda r: r.sample(["a", "aa", "b", "ab", "B", "aB", "ba"], r.randint(2, 5)),
+    "non-ascii": lambda r: r.sample(["é", "É", "e", "E", "α", "Α", "ä", "Ä"], r.randint(2, 5)),
+}
+
+
+def gen_names(rng):
+    fam = rng.choice(sorted(NAME_FAMILIES) + ["case", "blend"])
+    if fam == "blend":
+        names = []
+        for k in rng.sample(sorted(NAME_FAMILIES), 2):
+            names += NAME_FAMILIES[k](rng)
+        names = rng.sample(sorted(set(names)), min(len(set(names)), rng.randint(3, 6)))
+    else:
+        names = NAME_FAMILIES[fam](rng)
+    names = sorted(set(names))
+    rng.shuffle(names)
+    return fam, names
+
+
+def gen_compiled_name_cases(rng, tier):
+    """compiled expressions over the name families: few, none or all of the variables listed
+    explicitly (in any order, possibly one the expression does not use), the others left to the
+    documented default order"""
+    n = 90 if tier == "quick" else 900
+    for i in range(n):
+        fam, names = gen_names(rng)
+        # every name at least once, then a random expression over them on top
+        terms = [p.Product((rng.randint(1, 5), p.Variable(v))) if rng.random() < 0.5
+                 else p.Variable(v) for v in names]
+        rng.shuffle(terms)
+        e = p.Sum(tuple(terms) + (gen_arith(rng, rng.randint(0, 3), names),))
+        k = rng.choice([0, 0, 0, 1, 1, 2, len(names)])
+        vs = rng.sample(names, min(k, len(names)))
+        if rng.random() < 0.15:
+            vs.insert(rng.randrange(len(vs) + 1), "unused_")
+        width = len(names) + 1
+        # distinct values in every position: a permuted binding changes the result
+        args = [[[v, 1] for v in rng.sample(range(-9, 10), width)] for _ in range(3)]
+        args.append([[rng.randint(-6, 6), rng.randint(1, 4)] for _ in range(width)])
+        yield {"expr": dumps(expr_to_sx(e)), "vars": vs, "args": args,
+               "proto": rng.randrange(0, 6), "prehash": bool(i % 2), "family": fam}
+
+
+SHARING_ROUTES = list(S.PLAIN_ROUTES) + ["substituted", "operators"]
+
+
+def gen_sharing_cases(rng, tier):
+    """one structure in which composite subexpressions repeat, to be built as a tree (a separate
+    object per occurrence) and along routes that make or keep SHARED objects"""
+    n = 300 if tier == "quick" else 4000
+    g = ExprGen(rng, cse=0.1, floats=0.06, malformed=0.0, lists=True)
+    for i in range(n):
+        sx, extra = S.gen_repeating(rng, g)
+        routes = ["shared"] + rng.sample(SHARING_ROUTES[1:], 3)
+        yield {"expr": dumps(sx), "routes": routes, "route": rng.choice(routes),
+               "seed": rng.randrange(1 << 30), "extra": extra, "proto": rng.randrange(0, 6),
+               "prehash": bool(i % 2), "xproc": True}
+    x, y, a, i_, f = (p.Variable(v) for v in ("x", "y", "a", "i", "f"))
+    u, el, c = x + 1, p.Subscript(a, (i_ + 1,)), p.Comparison(x, "<", y + 1)
+    directed = [u * u, p.Sum((u * u, f(u ** 2, el), el)), p.If(c, p.LogicalNot(c), c),
+                p.Quotient(x ** 2 + y ** 2, 1 + (x ** 2 + y ** 2) ** 3), f((x, y), (x, y)),
+                p.Call(f, (u,) * 3), p.Sum((p.CommonSubexpression(u, "c"),) * 2),
+                p.Min((p.Lookup(el, "re"), p.Lookup(el, "re"))), (u, u), [[u], [u]],
+                p.Slice((u, u, None)), p.CallWithKwargs(f, (u,), {"k": u}),
+                p.LeftShift(p.BitwiseNot(i_ + 1), p.BitwiseNot(i_ + 1)),
+                p.Derivative(p.Substitution(u * u, ("x",), (u,)), ("x",))]
+    for k, e in enumerate(directed):
+        yield {"expr": dumps(expr_to_sx(e)), "routes": list(S.PLAIN_ROUTES), "route": "shared",
+               "seed": k, "extra": None, "proto": k % 6, "prehash": bool(k % 2), "xproc": True}
 
 # }}}
 
@@ -594,7 +690,8 @@ class CompiledStream(Stream):
                 bad = pp["compiled"][i]["bad"]
                 if bad:
                     return Failure("compiled-" + bad[0],
-                                   f"producer {cfg_name(prods[pi])} -> consumer {cfg_name(conss[ci])}: {bad}", pl)
+                                   f"producer {cfg_name(prods[pi])} -> consumer {cfg_name(conss[ci])}: {bad}"
+                                   f"{pp['compiled'][i].get('note', '')}", pl)
         return None
 
     def nontrivial_key(self, pl, model, impl):
@@ -602,6 +699,99 @@ class CompiledStream(Stream):
 
     def stats(self, pl, mo, io, acc):
         acc["protocol_" + str(pl["proto"])] = acc.get("protocol_" + str(pl["proto"]), 0) + 1
+        if pl.get("family"):
+            d = acc.setdefault("name_families", {})
+            d[pl["family"]] = d.get(pl["family"], 0) + 1
+
+
+class SharingStream(Stream):
+    """The persistent key depends only on the STRUCTURE of an expression, not on which of its
+    equal subexpressions happen to be one Python object.  One structure in which composite
+    subexpressions repeat is built as a tree (built from source: a separate object per occurrence)
+    and along routes that create or keep shared objects: maximal / partial sharing (`u = x + 1;
+    u*u`), shared leaves too, pickle and deepcopy of a shared object, the library's caching
+    identity mapper and `substitute`, identity mapping of a shared object.
+    Correspondence: the byte strings the real mapper feeds for the SHARED object vs the model
+    `digest` of the structure.
+    Oracle: every route gives the key of the tree; one mapper instance applied to several
+    expressions in a row feeds for each what a fresh mapper feeds; across processes: the shared
+    object pickled in a producer (hashed before or not) is, in a consumer with another hash seed /
+    -O, equal to the tree built from source there, has its hash, finds it, and has its key, which
+    is the key the producer computed."""
+    name = "digest-sharing"
+
+    def cases(self, rng, tier):
+        return list(BATCH.sharing)
+
+    def request(self, pl):
+        return f"(c17-digest {pl['expr']})"
+
+    def run_impl(self, pl):
+        sx = loads(pl["expr"])
+        o = S.build(sx, "shared", pl["seed"])
+        return real_digest_reply(o if o is not None else sx_to_expr(sx))
+
+    def oracle(self, pl):
+        sx = loads(pl["expr"])
+        tree = S.build(sx, "tree", 0)
+        if tree is None:
+            return None
+        kt = K.digest_hex(tree)
+        for route in pl["routes"]:
+            o = S.build(sx, route, pl["seed"], pl.get("extra"))
+            if o is None:
+                continue
+            ko = K.digest_hex(o)
+            if ko != kt:
+                return Failure("digest-depends-on-object-sharing",
+                               f"route {route} ({S.n_shared(o)} composite objects reachable along "
+                               f"several paths): key {ko[:12]}; built from source (no sharing): "
+                               f"{kt[:12]}; same structure {pl['expr']}", pl)
+        fresh = K.digest_stream(tree) if not kt.startswith("err:") else None
+        if fresh is not None:
+            other = sx_to_expr(loads(pl["extra"]["parts"][0])) if pl.get("extra") else tree
+            seq = [other, tree, tree, sx_to_expr(sx)]
+            got = S.chunks_with_one_mapper(seq)
+            for k in (1, 2, 3):
+                if got[k] != fresh:
+                    return Failure("digest-depends-on-mapper-history",
+                                   f"one mapper instance, application {k + 1} of 4 feeds "
+                                   f"{got[k][:8]}..., a fresh mapper {fresh[:8]}... for {pl['expr']}",
+                                   pl)
+        if not pl.get("xproc"):
+            return None
+        res, i = BATCH.lookup("sharing", pl)
+        prods, conss = BATCH.configs()
+        for ci, c in enumerate(res["consumers"]):
+            for pi, pp in enumerate(c["per_producer"]):
+                bad = pp["sharing"][i]["bad"]
+                if bad:
+                    return Failure(bad[0],
+                                   f"route {pl['route']}, protocol {pl['proto']}, producer "
+                                   f"{cfg_name(prods[pi])} -> consumer {cfg_name(conss[ci])}: {bad}", pl)
+        return None
+
+    def shrink(self, pl):
+        # in-process candidates only (no subprocess launches while shrinking)
+        for s in sx_shrinks(loads(pl["expr"])):
+            yield {**pl, "expr": dumps(s), "extra": None, "xproc": False,
+                   "routes": [r for r in pl["routes"] if r in S.PLAIN_ROUTES] or ["shared"],
+                   "route": "shared"}
+
+    def nontrivial_key(self, pl, model, impl):
+        return pl["expr"] if len(impl) > 8 else None
+
+    def stats(self, pl, mo, io, acc):
+        d = acc.setdefault("routes", {})
+        for r in pl["routes"]:
+            d[r] = d.get(r, 0) + 1
+        o = S.build(loads(pl["expr"]), "shared", pl["seed"])
+        if o is not None and S.n_shared(o):
+            acc["structures_with_a_repeated_composite"] = acc.get("structures_with_a_repeated_composite", 0) + 1
+        if BATCH.result is not None and "pickles_with_shared_objects" not in acc:
+            acc["pickles_with_shared_objects"] = sum(
+                1 for r in BATCH.result["producers"] for x in r.get("sharing", [])
+                if not x.get("na") and x["shared"])
 
 
 class OfExprStream(Stream):
@@ -844,10 +1034,10 @@ def probe_known():
 PROP = Prop(
     id="C17",
     title="Pickles and persistent keys are stable across processes",
-    lean_targets=["PV.Properties.C17"],
+    lean_targets=["PV.Properties.C17", "PV.Properties.C17Compiled"],
     extractors=[extract],
     streams=[HistStream(), DigestStream(), NumpyScalarDigest(), CompiledStream(), OfExprStream(),
-             TableDigestStream(), InjectiveStream()],
+             TableDigestStream(), InjectiveStream(), SharingStream()],
     probes=[probe_known],
     trusted_base=[
         "Lean 4.33 kernel; axioms propext, Classical.choice, Quot.sound only",
